@@ -53,6 +53,7 @@ def check(prog, rep):
         _q_after_labels(prog, rep, f)
     _q_forms(prog, rep)
     _levels(prog, rep)
+    relabel_composition(prog, rep)
     rep.floor('C.returned-labels-canonical', 10)
     rep.floor('D.q-recomputed-after-label-write', 10)
     rep.floor('G.', 14)
@@ -448,6 +449,149 @@ def _aggregate_from_labels(prog, rep, f, m, w, qstmt, W, L, s):
     rep.ob('G.total-weight-of-input', f, sd[0] if sd else s, len(sd) == 1 and m.match(sd[0].value, 'np.sum(%s)' % W) is not None, 's must be the total weight of the input')
 
 
+# ------------------------------------------------------------------ label composition across levels
+def relabel_composition(prog, rep):
+    """Stores of the form  L[X == u] = V[u - 1]  (or L[h][np.where(L[h-1] == i+1)] = V[i]) inside `for u in range(..)` re-express the
+    labels of the original nodes through the labels V found for the current level's nodes.  Two necessary conditions:
+     (snapshot)   the mask source X is a snapshot of L taken before the loop (a copy, or another level), never L itself --
+                  otherwise nodes relabelled to v are relabelled again when the loop reaches u = v;
+     (index space) V is indexed by the modules of L: on every path to the store, V's reaching definition is the per-module
+                  vector of the current level (np.arange(1, n+1) after n = np.max(V), possibly moved/relabelled), not a per-node
+                  copy of L (first level) -- decided by a product dataflow over (constant boolean flags, kind of V)."""
+    from ..core.cfg import ENTRY
+    for name in ('community_louvain', 'modularity_louvain_und', 'modularity_louvain_dir', 'modularity_louvain_und_sign'):
+        f = prog.func(MODU, name)
+        m = Matcher(prog, f)
+        pm = ParentMap(f.node)
+        stmts = _stmts(f)
+        comps = []
+        for s in stmts:
+            if not (isinstance(s, ast.Assign) and len(s.targets) == 1 and isinstance(s.targets[0], ast.Subscript)):
+                continue
+            loops = [lp for lp in pm.loops(s) if isinstance(lp, ast.For) and isinstance(lp.target, ast.Name)]
+            if not loops:
+                continue
+            u = loops[0].target.id
+            b = m.match(s, '$L[$X == %s] = $V[%s - 1]' % (u, u)) or m.match(s, '$L[$X == %s + 1] = $V[%s]' % (u, u)) \
+                or m.match(s, '$L[np.where($X == %s + 1)] = $V[%s]' % (u, u)) or m.match(s, '$L[np.where($X == %s)] = $V[%s - 1]' % (u, u))
+            if b:
+                comps.append((s, loops[0], b))
+        rep.ob('I.composition-found', f, comps[0][0] if comps else 'L[X == u] = V[u - 1]', len(comps) == 1,
+               'expected one statement mapping the level labels back to the original nodes', line=f.node.lineno)
+        for (s, lp, b) in comps:
+            L, X, V = b['L'], b['X'], b['V']
+            # --- snapshot
+            ok = True
+            why = ''
+            if norm(L) == norm(X):
+                ok = False
+                why = 'mask reads the array being written'
+            elif isinstance(X, ast.Name) and isinstance(L, ast.Name):
+                xd = [d for d in stmts if isinstance(d, ast.Assign) and any(isinstance(t, ast.Name) and t.id == X.id for t in d.targets)]
+                for d in xd:
+                    v = d.value
+                    fresh = (isinstance(v, ast.Call) and ((isinstance(v.func, ast.Attribute) and v.func.attr in ('copy', 'astype') and norm(v.func.value) == L.id)
+                                                          or (norm(v.func) in ('np.array', 'np.copy') and v.args and norm(v.args[0]) == L.id)))
+                    if not fresh and L.id in {n.id for n in ast.walk(v) if isinstance(n, ast.Name)} and not isinstance(v, ast.BinOp):
+                        ok = False
+                        why = '`%s` is defined by `%s`: it shares memory with `%s`, so labels written for module u are read back as the mask of a later u' % (X.id, norm(d), L.id)
+                if not xd:
+                    ok = False
+                    why = 'no definition of the mask source'
+            elif isinstance(X, ast.Subscript) and isinstance(L, ast.Subscript):
+                ok = norm(X.value) == norm(L.value) and norm(X.slice) != norm(L.slice)
+                why = 'mask level and written level coincide'
+            rep.ob('I.relabel-mask-is-a-snapshot', f, s, ok, why)
+            # --- index space (only where V can also be a per-node copy of L: community_louvain)
+            if isinstance(V, ast.Name) and isinstance(L, ast.Name):
+                _index_space(prog, rep, f, s, L.id, V.id)
+
+
+def _index_space(prog, rep, f, store, L, V):
+    from ..core.cfg import ENTRY
+    cfg = CFG(f.node)
+    m = Matcher(prog, f)
+    # constant boolean flags of the function
+    flags = set()
+    for s in _stmts(f):
+        if isinstance(s, ast.Assign) and len(s.targets) == 1 and isinstance(s.targets[0], ast.Name) and isinstance(s.value, ast.Constant) and isinstance(s.value.value, bool):
+            flags.add(s.targets[0].id)
+    flags = sorted(flags)
+
+    def kind_of_def(s):
+        v = s.value
+        if isinstance(v, ast.Call) and isinstance(v.func, ast.Attribute) and v.func.attr == 'copy' and norm(v.func.value) == L:
+            return 'PER-NODE'
+        if m.match(v, 'np.arange(1, $N + 1)') or m.match(v, 'np.arange($N) + 1'):
+            return 'PER-LEVEL-NODE'
+        return None
+    # state: frozenset of (flag values tuple, kind)
+    IN = {ENTRY: frozenset([(tuple(None for _ in flags), 'UNDEF')])}
+    work = [ENTRY]
+    n = 0
+
+    def transfer(node, states):
+        out = set()
+        for (fv, kind) in states:
+            fv = list(fv)
+            k = kind
+            if isinstance(node, ast.Assign) and len(node.targets) == 1 and isinstance(node.targets[0], ast.Name):
+                nm = node.targets[0].id
+                if nm in flags and isinstance(node.value, ast.Constant):
+                    fv[flags.index(nm)] = node.value.value
+                elif nm in flags:
+                    fv[flags.index(nm)] = None
+                if nm == V:
+                    kd = kind_of_def(node)
+                    k = kd or 'OTHER'
+            elif isinstance(node, ast.Assign) and isinstance(node.targets[0], ast.Tuple) and any(isinstance(e, ast.Name) and e.id == V for e in node.targets[0].elts):
+                pass     # canonical relabelling keeps the index space
+            out.add((tuple(fv), k))
+        return frozenset(out)
+    while work:
+        x = work.pop()
+        st = IN[x]
+        out = st if x == ENTRY else transfer(x, st)
+        for sc in cfg.succ(x):
+            if sc in ('EXIT', 'RAISE'):
+                continue
+            o2 = out
+            if isinstance(x, ast.If) and isinstance(x.test, ast.Name) and x.test.id in flags:
+                labs = cfg.edge_labels(x, sc)
+                i = flags.index(x.test.id)
+                keep = set()
+                for (fv, k) in out:
+                    for lab in labs:
+                        if lab in (True, False) and (fv[i] is None or fv[i] == lab):
+                            f2 = list(fv)
+                            f2[i] = lab
+                            keep.add((tuple(f2), k))
+                o2 = frozenset(keep)
+                if not o2:
+                    continue
+            if sc not in IN:
+                IN[sc] = o2
+                work.append(sc)
+            elif not o2 <= IN[sc]:
+                IN[sc] = IN[sc] | o2
+                work.append(sc)
+        n += 1
+        if n > 20000:
+            break
+    kinds = {k for (fv, k) in IN.get(store, frozenset())}
+    rep.ob('I.relabel-vector-indexed-by-modules', f, store, bool(kinds) and kinds <= {'PER-LEVEL-NODE'},
+           '`%s[u - 1]` is read as "new label of module u of `%s`", but on some path `%s` still is %s: labels of individual nodes would be applied to whole modules '
+           'and the returned partition differs from the one q was computed for' % (
+               V, L, V, ' / '.join(sorted({'a per-node copy of the start partition' if k == 'PER-NODE' else k for k in kinds - {'PER-LEVEL-NODE'}})) or 'undefined'))
+    # and the direct assignment L = V.copy() needs V per node
+    for s in _stmts(f):
+        if isinstance(s, ast.Assign) and len(s.targets) == 1 and isinstance(s.targets[0], ast.Name) and s.targets[0].id == L \
+                and isinstance(s.value, ast.Call) and isinstance(s.value.func, ast.Attribute) and s.value.func.attr == 'copy' and norm(s.value.func.value) == V:
+            ks = {k for (fv, k) in IN.get(s, frozenset())}
+            rep.ob('I.direct-assignment-needs-per-node-vector', f, s, bool(ks) and ks <= {'PER-NODE'},
+                   '`%s = %s.copy()` is only right while `%s` labels the original nodes (first level); here it may be %s' % (L, V, V, sorted(ks)))
+
+
 # ------------------------------------------------------------------ (c) + (d)
 def _levels(prog, rep):
     for name, Wname, agg in (('modularity_louvain_und', 'W', 'W1'), ('modularity_louvain_dir', 'W', 'W1')):
@@ -531,6 +675,10 @@ def variants(root):
     B('singletons start at zero', 'modularity_louvain_und', 'ci.append(np.arange(n) + 1)', 'ci.append(np.arange(n))', 'C.')
     B('community_louvain first level not canonical', 'community_louvain', '        _, Mb = np.unique(Mb, return_inverse=True)\n        Mb += 1\n', '', 'C.')
     N('q terms reordered', 'modularity_finetune_und', 'q = np.trace(w) / s - gamma * np.sum(np.dot(w / s, w / s))', 'q = -gamma * np.sum(np.dot(w / s, w / s)) + np.trace(w) / s') if False else None
+    B('relabel mask aliases labels', 'community_louvain', 'M0 = ci.copy()', 'M0 = ci', 'I.relabel-mask')
+    B('first-level flag never cleared', 'community_louvain', '            first_iteration = False\n', '', 'I.')
+    B('levels relabelled from the same level', 'modularity_louvain_und', 'ci[h][np.where(ci[h - 1] == i + 1)] = m[i]', 'ci[h][np.where(ci[h] == i + 1)] = m[i]', 'I.relabel-mask')
+    N('snapshot via np.array', 'community_louvain', 'M0 = ci.copy()', 'M0 = np.array(ci)')
     N('unique spelled with index', 'modularity_finetune_und', "    _, ci = np.unique(ci, return_inverse=True)\n    ci += 1\n\n    m = np.max(ci)", "    ci = np.unique(ci, return_inverse=True)[1] + 1\n\n    m = np.max(ci)")
     N('aggregate copied', 'modularity_louvain_und', '        W = W1\n', '        W = W1.copy()\n')
     return [v for v in out if v is not None]
